@@ -492,6 +492,9 @@ func (w *World) DrawAction(rt *rapid.T, p *Profile) (Action, string) {
 			ps.Static = ps.Via == "none" && rapid.IntRange(0, 5).Draw(rt, "static") == 0
 			if rapid.IntRange(0, 5).Draw(rt, "init") == 0 {
 				ps.InitCPU, ps.InitMem = int64(rapid.IntRange(0, 5000).Draw(rt, "initCPU")), int64(rapid.IntRange(0, 5000).Draw(rt, "initMemMB"))*1_000_000
+				if rapid.Bool().Draw(rt, "secondInit") { // the CPU peak and the memory peak sit in different init containers
+					ps.Init2CPU, ps.Init2Mem = ps.InitCPU/2, ps.InitMem*3+1_000_000
+				}
 			}
 			if rapid.IntRange(0, 7).Draw(rt, "overhead") == 0 {
 				ps.OverCPU, ps.OverMem = 10, 1_000_000
@@ -638,7 +641,7 @@ func (w *World) DrawAction(rt *rapid.T, p *Profile) (Action, string) {
 		}
 	case "foreignTaint":
 		if n, ok := needNode(); ok {
-			key := rapid.SampledFrom([]string{"node.kubernetes.io/unreachable", "dedicated", "atlassian.com/escalatorx", "atlassian.com/escalator-forc"}).Draw(rt, "key")
+			key := rapid.SampledFrom([]string{"node.kubernetes.io/unreachable", "dedicated", "atlassian.com/escalatorx", "atlassian.com/escalator-forc", "atlassian.com/escalator-canary", "atlassian.com/escalator.io/hold", "escalator"}).Draw(rt, "key")
 			return Action{Op: "taint", Node: n, Key: key, Val: rapid.SampledFrom([]string{"", "x", "123"}).Draw(rt, "val"), Effect: "NoSchedule"}, "foreignTaint"
 		}
 	case "removeTaint":
@@ -741,6 +744,35 @@ func (w *World) DrawAction(rt *rapid.T, p *Profile) (Action, string) {
 				Val: rapid.SampledFrom([]string{"cordon", "annotate", "foreignTaint", "otherReplica", "label"}).Draw(rt, "writer")},
 			tp, {Op: "scan", Flag: true},
 		}}, "raceOnWrite"
+	case "refreshFails": // the cloud description cannot be refreshed at the start of a scan (the provider is rebuilt), while the group needs attention
+		tp, _ := w.drawTargetPods(rt, g, "zero", "belowL", "aboveS", "farAboveS")
+		return Action{Op: "seq", Seq: []Action{
+			{Op: "fault", Faults: []sim.Fault{{Kind: sim.ADescribeASG, Nth: 0, Count: rapid.SampledFrom([]int{1, 1, 2}).Draw(rt, "count"), Code: rapid.SampledFrom(cloudErrorCodes).Draw(rt, "code")}}},
+			tp, {Op: "scan", Flag: true}, {Op: "scan", Flag: true},
+		}}, "refreshFails"
+	case "massDeleteFails": // many nodes are reaped in one scan while the API server refuses every node delete
+		names := w.GroupNodeNames(g)
+		if len(names) >= 5 {
+			k := rapid.IntRange(5, minInt(9, len(names))).Draw(rt, "k")
+			return Action{Op: "seq", Seq: []Action{
+				{Op: "bulk", Group: g, N: k, M: 0, Key: "force+drain"},
+				{Op: "fault", Faults: []sim.Fault{{Kind: sim.KDelete, Nth: -1}}},
+				{Op: "scan", Flag: true},
+			}}, "massDeleteFails"
+		}
+	case "fleetFailsEverywhere": // every group is short of capacity and no fleet instance comes up, for two scans in a row
+		seq := []Action{{Op: "fleetPlan", Fleet: &sim.FleetPlan{Split: 1, PageSize: 50, NeverReady: 1, GoneState: rapid.SampledFrom([]string{"", "terminated"}).Draw(rt, "gone")}}}
+		for gg := range w.Cfg.Groups {
+			tp, _ := w.drawTargetPods(rt, gg, "aboveS", "farAboveS")
+			seq = append(seq, tp)
+		}
+		seq = append(seq, Action{Op: "scan", Flag: true}, Action{Op: "advance", D: 20 * time.Minute}, Action{Op: "scan", Flag: true},
+			Action{Op: "fleetPlan", Fleet: &sim.FleetPlan{Split: 1, PageSize: 50}})
+		return Action{Op: "seq", Seq: seq}, "fleetFailsEverywhere"
+	case "clonePod": // a pod of the same name in another namespace
+		if names := w.PodNames(); len(names) > 0 {
+			return Action{Op: "clonePod", Names: []string{rapid.SampledFrom(names).Draw(rt, "pod")}, Val: rapid.SampledFrom([]string{"team-b", "team-c", "kube-system"}).Draw(rt, "namespace")}, "clonePod"
+		}
 	case "pinAsg": // the ASG is pinned (min == max) at or just below the group's node count while utilisation is low
 		if n := len(w.GroupNodeNames(g)); n > 0 {
 			pin := n - rapid.IntRange(0, 1).Draw(rt, "below")
